@@ -279,6 +279,19 @@ func run(ci any, r *mon.Rec) {
 						} else {
 							fill(rng, fr[8:], style)
 						}
+						// the answer for a header does not change when more of the frame is there: the body is not the
+						// classifier's business (asked again with 13 bytes and with the whole frame)
+						for _, k := range []int{13, n} {
+							if k > n || k <= 8 {
+								continue
+							}
+							var n2 int
+							var e2 error
+							if p, _ := mon.Catch(func() { n2, e2 = packet.LooksLikeModbusTCP(fr[:k], flag) }); !p && (e2 != nil || n2 != n) {
+								r.Violate(c, "classification-changes-with-more-bytes", mon.Attrs{"fc": c.FC, "bytes": map[bool]string{true: "13", false: "all"}[k == 13]}, fmt.Sprintf("header % x classified as (%d, nil); with %d bytes of the frame % x buffered: (%d, %v)", h, n, k, fr[:min(k, 20)], n2, e2))
+								break
+							}
+						}
 						r.Eval(1)
 						var v packet.Request
 						var perr error
